@@ -269,9 +269,18 @@ def r15_4(ck):
     cs = ck.fn('Store._check_schema', 'core.store')
     c2 = cfg_of(cs.node)
     raises_ = [r for r in A.walk_no_nested(cs.node) if isinstance(r, ast.Raise)]
-    ok = any(any(a[0] == 'falsy' and 'equal' in a[1]
+    csp = A.params_of(cs.node)
+    cur_names = {nm for nm, ds in local_defs(cs.node).items()
+                 if any(isinstance(d.value, ast.Call) and A.call_name(
+                     d.value) == 'getattr' and A.is_name(
+                     A.arg_of(d.value, 0), 'self') for d in ds)}
+    eq_names = {nm for nm, ds in local_defs(cs.node).items()
+                if ds and all(d.value is not None and (
+                    A.names_in(d.value) & cur_names) and csp[2] in
+                    A.names_in(d.value) for d in ds)}
+    ok = any(any(a[0] == 'falsy' and a[1] in eq_names
                  for a in c2.guards(c2.node(r))) and any(
-        a[0] == 'isnot' and a[2] == 'None'
+        a[0] == 'isnot' and a[2] == 'None' and a[1] in cur_names
         for a in c2.guards(c2.node(r))) for r in raises_)
     ck.require(ok, 'R15.4', cs, cs.node.name,
                '_check_schema raises when an existing value differs from '
@@ -283,14 +292,15 @@ def r15_4(ck):
             g = c2.guards(c2.node(r))
             if any(a[0] == '==' and "'units'" in ' '.join(map(str, a[1:]))
                    .replace('"', "'") for a in g):
-                ok = ('==', 'current_schema_value', 'new_schema') in g
+                ok = any(('==',) + tuple(sorted((c_, csp[2]))) in g
+                         for c_ in cur_names)
                 ck.require(ok, 'R15.4', cs, r,
                            'differing unit objects are accepted only when '
                            'they compare equal after re-hashing',
                            'units that merely differ are accepted under %s: '
                            'incompatible unit declarations of two processes '
                            'are merged silently' % sorted(
-                               a for a in g if 'new_schema' in str(a)), r)
+                               a for a in g if csp[2] in str(a)), r)
     rets = [r for r in A.walk_no_nested(cs.node) if isinstance(r, ast.Return)]
     p = A.params_of(cs.node)[2]
     ck.require(bool(rets) and all(A.is_name(r.value, p) for r in rets),
@@ -320,8 +330,15 @@ def r15_5(ck):
                    'two ports of one process wired to one store would '
                    'leave a _multi_update marker in the initial state', c)
         p = A.params_of(f.node)
-        ok = A.is_name(A.arg_of(c, 0), 'path') and 'state' in A.unparse(
-            A.arg_of(c, 1)) and 'topology' in A.unparse(A.arg_of(c, 2))
+        a1, a2 = A.arg_of(c, 1, 'update'), A.arg_of(c, 2, 'topology')
+        ok = A.is_name(A.arg_of(c, 0, 'outer'), 'path') and \
+            a1 is not None and a2 is not None and derives(
+                f.node, a1, lambda x: isinstance(x, ast.Call) and
+                A.call_name(x) in ('initial_state', 'default_state'),
+                at=c) and derives(
+                f.node, a2, lambda x: isinstance(x, ast.Call) and
+                A.call_name(x) == 'get' and A.is_name(
+                    A.call_receiver(x), p[2]), at=c)
         ck.require(ok, 'R15.5', f, c,
                    'called with (parent path, process state, its topology)',
                    None, c)
